@@ -253,3 +253,6 @@ def _py_build_native(mv, memo):  # noqa: F811  (rebinds the name the base functi
 
 
 PyNode.build_native = _py_build_native
+
+# (C02) nodes of a tree in ast.NodeVisitor visiting order (depth-first pre-order, each node exactly once)
+PyNode.attrs["visit_order"] = SeqOf(PyNode)
